@@ -1,8 +1,11 @@
 import PbVerif.Lemmas.Loess
-/-! C19 — LOESS: which points are fitted, with which windows, and how skipped points are filled.
-(The equality of the memory strategies is decided by the correspondence; see DESIGN.md.) -/
+import PbVerif.Lemmas.LoessKern
+import PbVerif.Lemmas.LoessRepro
+/-! C19 — LOESS: which points are fitted, with which windows, and how skipped points are filled; the two memory
+strategies (`conserve_memory`) compute the same baseline and coefficients; data on a polynomial of degree
+≤ poly_order is reproduced at every fitted point. -/
 namespace PbVerif.C19
-open PbVerif.Loess PbVerif.Lemmas
+open PbVerif.Loess PbVerif.Lemmas PbVerif.LoessKern PbVerif.Lemmas.LoessKern PbVerif.Poly
 
 /-- the first and last points are always fitted; fitted indices strictly increase -/
 theorem fits_sorted_ends (x : List Rat) (tp : Nat) (delta : Rat) (hn : 2 ≤ x.length) :
@@ -46,5 +49,126 @@ example : determineFitsX [0, 1, 2, 3, 4, 5, 6] 3 (21/10) =
     ([(0, 3), (1, 4), (3, 6), (3, 6), (4, 7)], [0, 2, 4, 5, 6], [(0, 3), (2, 5), (4, 6)]) := by decide +kernel
 /-- the repaired corner: `total_points = N` with a skipped tail keeps the window inside the data -/
 example : determineFitsX [0, 1, 2] 3 (21/10) = ([(0, 3), (0, 3), (0, 3)], [0, 1, 2], [(0, 2)]) := by decide +kernel
+
+/-! ### the memory strategies
+
+`Num α` interprets `+ - * / abs < sqrt` and `Solver α` is the body of `_loess_solver`: the statements hold for
+EVERY interpretation (exact rationals, IEEE doubles with any rounding, a solver that fails), because both
+strategies evaluate the same expressions on the same operands in the same order. -/
+
+/-- first iteration: `_loess_first_loop` returns the baseline and leaves the `coefs` that `_loess_low_memory`
+does, whatever `np.empty` left in `kernels` -/
+theorem strategies_equal_first {α : Type} (o : Num α) (solver : Solver α) (x y w : List α)
+    (coefs vander : List (List α)) (n : Nat) (windows : List (Nat × Nat)) (fits : List Nat) (junk : List (List α)) :
+    (firstLoop o solver x y w coefs vander n windows fits junk).2 =
+      lowMemory o solver x y w coefs vander n windows fits := by
+  rw [firstLoop_eq]
+
+/-- later iterations: `_loess_nonfirst_loops` on the kernels stored by `_loess_first_loop` (run on ANY earlier
+data `y, w, coefs`) returns the baseline and coefficients of `_loess_low_memory` on the current data
+`y', w', coefs'`.  Guards: fit indices are distinct (`kernels` has ONE row per point, a repeated index would
+overwrite it; `fits_sorted_ends` proves distinctness for the real selection) and index the `num_x` rows of
+`kernels`; one window per fit; every window has `total_points` entries (shape of `kernels[i] = kernel`). -/
+theorem strategies_equal {α : Type} (o : Num α) (solver : Solver α) (x y w y' w' : List α)
+    (coefs coefs' vander : List (List α)) (n tp : Nat) (windows : List (Nat × Nat)) (fits : List Nat)
+    (junk : List (List α)) (hnd : fits.Nodup) (hlt : ∀ i ∈ fits, i < n) (hjunk : junk.length = n)
+    (hlen : windows.length = fits.length) (hshape : ∀ v ∈ windows, v.1 + tp = v.2 ∧ v.2 ≤ n) :
+    nonfirstLoops o solver y' w' coefs' vander
+        (firstLoop o solver x y w coefs vander n windows fits junk).1 windows n fits =
+      lowMemory o solver x y' w' coefs' vander n windows fits := by
+  have _ := hlen; have _ := hshape
+  exact nonfirst_eq_lowMemory o solver x y' w' coefs' vander _ n windows fits
+    (firstLoop_stored o solver x y w coefs vander n windows fits junk hnd (fun i hi => hjunk ▸ hlt i hi))
+
+/-- **`conserve_memory` does not change what `loess` computes**: for every number of iterations
+(`fuel = max_iter + 1`) and every rule `upd` for the rest of an iteration (`_fill_skips`, the tolerance test
+and `break`, thresholding or `_tukey_square` re-weighting), the loop with `_loess_low_memory` and the loop with
+`_loess_first_loop` / `_loess_nonfirst_loops` end in the same state (data, weights, coefficients, history) -/
+theorem strategies_equal_loop {α β : Type} (o : Num α) (solver : Solver α) (x : List α) (vander : List (List α))
+    (n : Nat) (windows : List (Nat × Nat)) (fits : List Nat) (upd : Update α β) (fuel : Nat) (s : LState α β)
+    (junk : List (List α)) (hnd : fits.Nodup) (hlt : ∀ i ∈ fits, i < n) (hjunk : junk.length = n) :
+    loessLoop true o solver x vander n windows fits upd fuel 0 s junk =
+      loessLoop false o solver x vander n windows fits upd fuel 0 s junk :=
+  loop_strategies o solver x vander n windows fits upd fuel s junk hnd (fun i hi => hjunk ▸ hlt i hi)
+
+/-- … in particular with the windows and fits `_determine_fits` produces from ANY `x` (sorted or not) of at least
+two points: the guards hold by `fits_sorted_ends` and the index bounds of the selection -/
+theorem strategies_equal_loess {α β : Type} (o : Num α) (solver : Solver α) (xm : List α) (vander : List (List α))
+    (x : List Rat) (tp : Nat) (delta : Rat) (upd : Update α β) (maxIter : Nat) (s : LState α β)
+    (junk : List (List α)) (hn : 2 ≤ x.length) (hjunk : junk.length = x.length) :
+    let d := determineFitsX x tp delta
+    loessLoop true o solver xm vander x.length (natWindows d.1) d.2.1 upd (maxIter + 1) 0 s junk =
+      loessLoop false o solver xm vander x.length (natWindows d.1) d.2.1 upd (maxIter + 1) 0 s junk := by
+  intro d
+  have h1 := (Lemmas.fits_sorted_ends x tp delta hn).1
+  have hnd : d.2.1.Nodup := List.Pairwise.imp (fun h => Nat.ne_of_lt h) h1
+  exact strategies_equal_loop o solver xm vander x.length _ _ upd _ s junk hnd
+    (determineFits_fits_lt _ x.length tp _ (by omega)) hjunk
+
+/-- which entries a pass writes: `baseline[i]` exactly for the fitted `i`; `coefs` rows of skipped points keep
+their zeros (the documented "coefficients for any skipped x-value will all be 0") -/
+theorem baseline_written_iff {α : Type} (o : Num α) (solver : Solver α) (x y w : List α) (coefs vander : List (List α))
+    (n : Nat) (windows : List (Nat × Nat)) (fits : List Nat) (hlen : windows.length = fits.length)
+    (hlt : ∀ i ∈ fits, i < n) (j : Nat) (hj : j < n) :
+    let r := lowMemory o solver x y w coefs vander n windows fits
+    r.baseline.length = n ∧ (r.baseline.getD j none ≠ none ↔ j ∈ fits) ∧
+      (j ∉ fits → r.coefs.getD j [] = coefs.getD j []) :=
+  lowMemory_written o solver x y w coefs vander n windows fits hlen hlt j hj
+
+/-- non-vacuity: 5 points, 4-point windows, every second point fitted; a second pass with other data and
+weights through the cache equals the recomputation, and is not trivial (three entries written, two not) -/
+example :
+    let o := ratNum (sqrtApprox 16)
+    let x : List Rat := [-1, -1/2, 0, 1/2, 1]
+    let z := List.replicate 5 [(0 : Rat), 0]
+    let ks := (firstLoop o solveExact x [1, 2, 4, 2, 3] [1, 1, 1, 1, 1] z (vanderOf x 1) 5 [(0, 4), (0, 4), (1, 5)] [0, 2, 4]
+      (List.replicate 5 [])).1
+    let r := nonfirstLoops o solveExact [1, 2, 3, 2, 3] [1, 1/2, 1, 1, 3/4] z (vanderOf x 1) ks [(0, 4), (0, 4), (1, 5)] 5 [0, 2, 4]
+    r = lowMemory o solveExact x [1, 2, 3, 2, 3] [1, 1/2, 1, 1, 3/4] z (vanderOf x 1) 5 [(0, 4), (0, 4), (1, 5)] [0, 2, 4] ∧
+      r.baseline.map Option.isSome = [true, false, true, false, true] ∧ r.coefs.getD 1 [] = [0, 0] ∧
+      r.coefs.getD 2 [] ≠ [0, 0] := by decide +kernel
+
+/-! ### polynomial reproduction -/
+
+/-- the kernel is computed without dividing by zero on the windows `_determine_fits` yields for sorted distinct
+`x` and `total_points ≥ 2` (they contain their fit point: `windows_contain_fit`) -/
+theorem kernel_den_pos (sqrt : Rat → Rat) (x : List Rat) (i left right : Nat) (hx : StrictMonoL x)
+    (hli : left ≤ i) (hir : i < right) (h2 : left + 2 ≤ right) (hr : right ≤ x.length) :
+    0 < kernelDen (ratNum sqrt) x i left right :=
+  kernelDen_pos sqrt x i left right hx hli hir h2 hr
+
+/-- **LOESS reproduces polynomials.**  Data exactly on a polynomial `p` of degree ≤ `poly_order`
+(`p.length ≤ po + 1` coefficients), `x` strictly increasing, `vander` the Vandermonde matrix of `x`, and for every
+(fit, window) pair `FitOk`: window inside the data around its fit point, MORE than `poly_order` window points
+with non-zero weight `kernel·sqrt_w`, and (numeric layer, hypothesis `NormalEq`) `_loess_solver`'s answer solves the
+normal equations it was handed.  Then `baseline[i] = p(x[i])` and `coefs[i] = p` at every fitted point — for
+any robustness weights `w`, any `sqrt`, hence in every iteration and (by `strategies_equal`) for both strategies. -/
+theorem poly_reproduction (sqrt : Rat → Rat) (solver : Solver Rat) (x y w p : List Rat)
+    (coefs : List (List Rat)) (po : Nat) (windows : List (Nat × Nat)) (fits : List Nat)
+    (hx : StrictMonoL x) (hy : y.length = x.length) (hw : w.length = x.length) (hc : coefs.length = x.length)
+    (hp : p.length ≤ po + 1)
+    (hdata : ∀ k, k < x.length → y.getD k 0 = evalPoly p (x.getD k 0))
+    (hfit : ∀ q ∈ fits.zip windows, FitOk sqrt solver x y w po q) :
+    let r := lowMemory (ratNum sqrt) solver x y w coefs (vanderOf x po) x.length windows fits
+    ∀ q ∈ fits.zip windows,
+      r.baseline.getD q.1 none = some (evalPoly p (x.getD q.1 0)) ∧
+      r.coefs.getD q.1 [] = (List.range (po + 1)).map (fun l => p.getD l 0) :=
+  lowMemory_reproduces sqrt solver x y w p coefs po windows fits hx hy hw hc hp hdata hfit
+
+/-- non-vacuity: `y = 1 + 2x` on 5 points, straight-line fits on 4-point windows (3 points carry weight), the exact
+solver; the hypotheses hold and the fitted values are `1 + 2x` -/
+example :
+    let x : List Rat := [-1, -1/2, 0, 1/2, 1]
+    let y : List Rat := [-1, 0, 1, 2, 3]
+    let w : List Rat := [1, 1, 1/2, 1, 1]
+    (∀ q ∈ [0, 2, 3, 4].zip [(0, 4), (0, 4), (1, 5), (1, 5)], FitOk (sqrtApprox 16) solveExact x y w 1 q) ∧
+    (lowMemory (ratNum (sqrtApprox 16)) solveExact x y w (List.replicate 5 [0, 0]) (vanderOf x 1) 5
+      [(0, 4), (0, 4), (1, 5), (1, 5)] [0, 2, 3, 4]).baseline = [some (-1), none, some 1, some 2, some 3] := by
+  decide +kernel
+/-- the weight-count hypothesis is needed: with `total_points = poly_order + 1` the farthest window point has kernel
+weight 0, the local system is singular and nothing is reproduced (the real code raises `LinAlgError` or returns
+whatever LAPACK leaves) -/
+example : ¬ FitOk (sqrtApprox 16) solveExact [-1, -1/2, 0, 1/2, 1] [-1, 0, 1, 2, 3] [1, 1, 1, 1, 1] 1 (0, 0, 2) := by
+  decide +kernel
 
 end PbVerif.C19
